@@ -209,6 +209,23 @@ def step(rig, p):
         del rig.cblog[:]
         rig.deliver(int(p[1]), c04.unhx(p[2]))
         return f">{show_log(rig.cblog)}"
+    if k == "y":
+        # a frame stamped `dt` below the clock (equal to or older than an earlier frame's stamp); clock stays
+        del rig.cblog[:]
+        rig.nc.notify(int(p[1]), bytearray(c04.unhx(p[2])), rig.clock - int(p[3]))
+        return f">{show_log(rig.cblog)}"
+    if k == "v":
+        # the consuming side writes a variable of a map it receives on
+        m, i = rig.cm[int(p[1])], int(p[2])
+        t = m.map[i].od.data_type
+        if p[3] == "int":
+            m.map[i].raw = int(p[4])
+        elif p[3] == "bool":
+            m.map[i].raw = p[4] == "1"
+        else:
+            eb, mb = (8, 23) if t == 0x08 else (11, 52)
+            m.map[i].raw = c04.bits_to_float(int(p[4]), eb, mb)
+        return "ok"
     if k == "r":
         m = rig.cm[int(p[1])]
         return f"{show_vals(m)}@{show_opt(m.timestamp)}@{show_opt(m.period)}@{c04.hx(bytes(m.data))}"
@@ -337,15 +354,19 @@ def oracle(op, out):
     if len(outs) != len(toks):
         return "output does not have one entry per step"
 
-    def deliver(cid, data):
+    def deliver(cid, data, at=None):
         nonlocal clock
-        ts = clock
-        clock += 1
+        if at is None:
+            ts = clock
+            clock += 1
+        else:
+            ts = at
         log = []
         for k in subs.get(cid, []):
             m = cons[k]
             if m.cob == cid and not m.transmitting:
                 m.received = True
+                m.dirty = False
                 m.x, m.n = int.from_bytes(data, "little"), len(data)
                 if m.ts is not None:
                     m.period = ts - m.ts
@@ -391,11 +412,33 @@ def oracle(op, out):
             log = deliver(int(p[1]), c04.unhx(p[2]))
             if o != f">{show_log(log)}":
                 return f"frame {tok} invoked {o}, expected >{show_log(log)}"
+        elif k == "y":
+            log = deliver(int(p[1]), c04.unhx(p[2]), at=clock - int(p[3]))
+            if o != f">{show_log(log)}":
+                return f"frame {tok} (timestamp not newer than an earlier one) invoked {o}, expected >{show_log(log)}"
+        elif k == "v":
+            m = cons[int(p[1])]
+            i = int(p[2])
+            t, l = m.layout[i]
+            if p[3] != "int" or t not in c04.SPEC or m.offs()[i] + l > 8 * m.n:
+                m.dirty = True                 # not judged; nor are reads of this map until the next frame
+                continue
+            v = int(p[4])
+            w, sg = c04.SPEC[t]
+            lo, hi = (-(1 << (w - 1)), (1 << (w - 1)) - 1) if sg else (0, (1 << w) - 1)
+            if not lo <= v <= hi:
+                if o != "err":
+                    return f"out-of-range write {tok} accepted"
+                continue
+            if o != "ok":
+                return f"write {tok} on the consuming side failed: {o}"
+            mask = (1 << l) - 1
+            m.x = (m.x & ~(mask << m.offs()[i])) | ((v & mask) << m.offs()[i])
         elif k in ("r", "p"):
             m = (cons if k == "r" else prod)[int(p[1])]
             vals = [m.val(i) for i in range(len(m.layout))]
-            if None in vals:
-                continue                       # frame shorter than the mapping: not judged
+            if None in vals or getattr(m, "dirty", False):
+                continue                       # frame shorter than the mapping / unjudged write: not judged
             got = o.split("@")
             if got[0] != ",".join(vals):
                 return f"{'consumer' if k == 'r' else 'producer'} map {p[1]} reads {got[0]}, the frame holds {','.join(vals)}"
@@ -515,6 +558,17 @@ def gen_ops(tier, rng):
             elif r < 0.68:
                 size = (sum(l for _, l in layouts[k]) + 7) // 8
                 steps.append(f"x.{rng.choice(pcobs + cobs)}.{c04.hx(bytes(rng.getrandbits(8) for _ in range(size)))}")
+            elif r < 0.72:
+                size = (sum(l for _, l in layouts[k]) + 7) // 8
+                steps.append(f"y.{rng.choice(pcobs + cobs)}.{c04.hx(bytes(rng.getrandbits(8) for _ in range(size)))}.{rng.choice([1, 1, 0, 2, 5])}")
+            elif r < 0.745:
+                t, l = layouts[k][rng.randrange(len(layouts[k]))] if layouts[k] else (None, None)
+                if t in c04.SPEC:
+                    i = [j for j, e in enumerate(layouts[k]) if e == (t, l)][0]
+                    w, sg = c04.SPEC[t]
+                    lo, hi = (-(1 << (w - 1)), (1 << (w - 1)) - 1) if sg else (0, (1 << w) - 1)
+                    steps.append(f"v.{k}.{i}.int.{rng.randint(lo, hi)}")
+                    steps.append(f"r.{k}")
             elif r < 0.78:
                 steps.append(f"r.{k}")
             elif r < 0.82:
@@ -536,6 +590,11 @@ def gen_ops(tier, rng):
                 steps.append(f"W.{k}.{arr}")
         for k in range(nm):
             steps.append(f"r.{k}")
+        # a write on the consuming side is only generated where no two consumer maps can ever receive the same
+        # frame (maps with one COB-ID keep one shared buffer object; that aliasing is outside the property)
+        ccobs = [m.split(",")[0] for m in cm]
+        if len(set(ccobs)) < len(ccobs) or any(t[:2] in ("c.", "d.") for t in steps):
+            steps = [t for t in steps if not t.startswith("v.")]
         yield f"x {';'.join(pm)} {';'.join(cm)} {'|'.join(steps)}"
     # every type alone and in pairs: write all boundary values, transmit, read on the other side
     singles = [(t, ln) for t in c05.ALL_TYPES for ln in c05.lens_for(t)]
